@@ -107,6 +107,8 @@ def build_plain(case):
         gid = graph.division_connected_variable_groups(s, graph=g, group_size=gs)
         return s, list(gid), extra
     h, w = case["shape"]
+    if case.get("before"):
+        gcheck.warm_grid(tuple(case["before"]))
     if isinstance(gs, list):
         rows = [gs[y * w : (y + 1) * w] for y in range(h)]
         if case.get("as_array"):
@@ -428,6 +430,15 @@ def scale_cases(tier):
         pats.append([False] + pats[0][1:])  # a border segment missing inside ... or a wall removed: judged by the oracle
         for prim in (False, True):
             out.append({"variant": "borders", "form": "inner-frame", "shape": [h, w], "n": n, "edges": edges, "spec": None, "prim": prim, "cfg": False, "patterns": pats})
+    # board histories: board B right after board A in the same process
+    for a, b in gcheck.grid_history_pairs(tier):
+        h, w = b
+        n = h * w
+        cells = [(y, x) for y in range(h) for x in range(w)]
+        halves = [sorted(y * w + x for (y, x) in cells if (x < (w + 1) // 2 if w > 1 else y < (h + 1) // 2)), sorted(y * w + x for (y, x) in cells if not (x < (w + 1) // 2 if w > 1 else y < (h + 1) // 2))]
+        rows = [[y * w + x for x in range(w)] for y in range(h)]
+        far = [[0, n - 1], list(range(1, n - 1))] if n > 2 else [[0], [n - 1]]
+        out.append({"variant": "plain", "form": "grid", "shape": [h, w], "n": n, "spec": None, "before": list(a), "partitions": [[b2 for b2 in halves if b2], rows, [b2 for b2 in far if b2], [list(range(n))]]})
     # large family: sizes >= 257 given as distinct int objects (as a parser would produce them), one long block
     for n in ((258,) if tier == "quick" else (257, 258, 300)):
         path = [(i, i + 1) for i in range(n - 1)]
